@@ -466,9 +466,33 @@ func RandomDoc(r *core.Rng, s *Schema, o OpOpts) *Doc {
 		op := &Operation{Kind: kind, Name: on}
 		g.vars = &op.Vars
 		g.varN = 0
-		op.Sel = g.selSet(root, 0, scope{}, len(g.frags))
-		if kind == "subscription" && len(op.Sel) > 1 {
-			op.Sel = op.Sel[:1] // a subscription must select exactly one root field
+		if kind == "subscription" {
+			// a subscription selects exactly one root field, and no introspection field
+			saveT, saveI := g.o.TypenameSel, g.o.Inline
+			g.o.TypenameSel, g.o.Inline = false, false
+			for tries := 0; tries < 10; tries++ {
+				op.Vars = nil
+				op.Sel = g.selSet(root, 0, scope{}, 0)
+				var fs []*Sel
+				for _, x := range op.Sel {
+					if x.Kind == "field" && x.Name != "__typename" {
+						fs = append(fs, x)
+					}
+				}
+				if len(fs) > 0 {
+					op.Sel = fs[:1]
+					break
+				}
+				op.Sel = nil
+			}
+			g.o.TypenameSel, g.o.Inline = saveT, saveI
+			if len(op.Sel) == 0 {
+				kind, root = "query", "Query"
+				op.Kind = kind
+				op.Sel = g.selSet(root, 0, scope{}, len(g.frags))
+			}
+		} else {
+			op.Sel = g.selSet(root, 0, scope{}, len(g.frags))
 		}
 		g.vars = nil
 		if r.Chance(0.5) {
